@@ -374,6 +374,18 @@ class Scripts:
         r = self.rnd
         bws = self.api.enum_values('sx127x_bw_t')
         sfs = self.api.enum_values('sx127x_sf_t')
+        # a spreading-factor code retained from an earlier session (all 16, including the reserved
+        # ones) x every bandwidth, on a fresh handle
+        self.begin('ldro', 'retained-sf')
+        for sfc in range(16):
+            for b in bws:
+                self.emit('reset')
+                self.emit('env chip s 1 0x81')
+                self.emit('env chip l 0x1e %d' % ((sfc << 4) | r.randint(0, 15)))
+                self.emit('env chip l 0x26 %d' % r.randint(0, 255))
+                self.emit('create')
+                self.emit('lora_set_bandwidth %d' % b)
+                self.emit('dump')
         for (p1, p2, p3) in priors3:
             self.begin('ldro', 'prior=%02x,%02x,%02x' % (p1, p2, p3))
             self.emit('env chip l 0x1d %d' % p1)
